@@ -572,6 +572,54 @@ def u23(led, rid, ctx):
               "a satisfiable model is reported unsatisfiable")
 
 
+def u24(led, rid, ctx):
+    """retention TABLE of the recursive minimiser: a predicate of the learned nogood is dropped only
+    when its label is Removable (decided per label from the label comparisons on each path)"""
+    lib = ctx.lib
+    f = lib.method("RecursiveMinimiser", "remove_dominated_predicates")
+    paths = [p for p in SymExec(f, max_paths=600, max_visits=2).run() if not p.diverged]
+    labels = ("Poison", "Keep", "Removable")
+    n = 0
+    for L in labels:
+        outcomes = set()
+        for p in paths:
+            tested = False
+            ok = True
+            for cond, val, others in p.conds:
+                c_ = peel(cond, calls=None)
+                neg = False
+                while c_.k == "unop" and c_.a == "Not":
+                    c_ = peel(c_.b, calls=None)
+                    neg = not neg
+                if not (c_.k == "call" and c_.a.name in ("eq", "ne") and len(c_.b) == 2):
+                    continue
+                rhs = peel(c_.b[1], calls=None)
+                lhs = peel(c_.b[0], calls=None)
+                if rhs.k != "agg":
+                    lhs, rhs = rhs, lhs
+                if rhs.k != "agg" or not (rhs.a or "").endswith("Label"):
+                    continue
+                tested = True
+                truth = (val != 0) if val is not None else (0 in (others or []))
+                is_eq = (L == rhs.b)
+                want = is_eq if c_.a.name == "eq" else (not is_eq)
+                if neg:
+                    want = not want
+                if want != truth:
+                    ok = False
+            if not tested or not ok:
+                continue
+            kept = any(c.name == "index_mut" for c, a, r in p.calls) or bool(p.stores)
+            outcomes.add("kept" if kept else "dropped")
+        n += 1
+        want_o = {"dropped"} if L == "Removable" else {"kept"}
+        led.check(outcomes == want_o, rid, "retain:%s" % L, f.span, "%s → %s" % (L, sorted(want_o)[0]),
+                  "remove_dominated_predicates %s a predicate labelled %s (expected: %s): a predicate that is "
+                  "not implied by the rest of the nogood is removed, the minimised nogood is too strong and "
+                  "cuts off solutions" % ("/".join(sorted(outcomes)) or "never decides", L, sorted(want_o)[0]))
+    led.floor(rid, "labels decided", n, 3)
+
+
 def run(ctx, led):
     run_rule(led, "U1", "Infeasible is declared only for a conflict at decision level 0", u1, ctx)
     run_rule(led, "U2", "no fabricated reason reference; None reason only for decisions, assumptions, "
@@ -608,3 +656,4 @@ def run(ctx, led):
     run_rule(led, "U21", "lazy reasons of reified propagators keep the reification literal (shared with C09-R7)", _C09r.r7, ctx)
     run_rule(led, "U22", "equality halves are merged in the first semantic pass when minimisation is off", u22, ctx)
     run_rule(led, "U23", "conflict resolution always returns in the Solving state (MUST-PASS)", u23, ctx)
+    run_rule(led, "U24", "retention TABLE of the recursive minimiser: only Removable predicates are dropped", u24, ctx)
